@@ -17,6 +17,7 @@ import (
 	"math/big"
 	"strings"
 	"time"
+	"unicode"
 )
 
 type hdr struct{ K, V string }
@@ -75,7 +76,8 @@ func (c *hmacCfg) keysAt(ts int64) [][]byte {
 
 // ---------------------------------------------------------------- helpers
 
-func ows(s string) string { return strings.Trim(s, " \t") }
+// ows strips surrounding whitespace of a header value (any Unicode white space: the permissive reading).
+func ows(s string) string { return strings.TrimFunc(s, unicode.IsSpace) }
 
 // values of a header, name compared case-insensitively (RFC 9110), OWS stripped.
 func headerValues(hs []hdr, name string) []string {
